@@ -23,6 +23,8 @@ type wgCase struct {
 	Model   *ref.Model `json:"model"`
 	Choices []int      `json:"choices,omitempty"`
 	Extra   string     `json:"extra,omitempty"`
+	// Earlier is a model built on the same builder value before Model (builder-reuse histories)
+	Earlier *ref.Model `json:"earlier,omitempty"`
 }
 
 // wgObs is one observed build.
@@ -38,6 +40,11 @@ type wgObs struct {
 }
 
 func wgBuild(pm *openfgav1.AuthorizationModel) *wgObs {
+	return wgBuildOn(graph.NewWeightedAuthorizationModelGraphBuilder(), pm)
+}
+
+// wgBuildOn builds on the given (possibly used) builder value.
+func wgBuildOn(b *graph.WeightedAuthorizationModelGraphBuilder, pm *openfgav1.AuthorizationModel) *wgObs {
 	o := &wgObs{}
 	func() {
 		defer func() {
@@ -48,7 +55,7 @@ func wgBuild(pm *openfgav1.AuthorizationModel) *wgObs {
 				o.panic = p
 			}
 		}()
-		o.g, o.err = graph.NewWeightedAuthorizationModelGraphBuilder().Build(pm)
+		o.g, o.err = b.Build(pm)
 	}()
 	switch {
 	case o.panic != nil:
